@@ -33,6 +33,7 @@ send times), the time it closed its socket, and its application callbacks:
 """
 
 import gc
+import struct
 
 from ref import ws_codec as W
 from sim.env import SimEnv, UNIT
@@ -85,6 +86,9 @@ CODES = [1000, 1001, 1002, 1003, 1008, 1011, 3000, 4000, 4999]
 REASONS = ["", "bye", "going away", "grüße \U0001F44B", "r" * 123]
 BAD_REASONS = ["ff", "c328", "e282", "62796580", "eda080"]
 PING_TIMEOUT_PAYLOAD = W.close_payload(1000, b"ping timed out")
+# faults after which a frame handed to the stream may legitimately never reach the wire
+# (Tornado closes the stream right after queueing its echo: queued bytes are dropped)
+NO_WIRE_GUARANTEE = ("peer_rst_seen", "epipe", "zero_window_stall", "partial_send", "send_eagain")
 
 
 # ---------------------------------------------------------------------------
@@ -115,12 +119,24 @@ def _peer_close_payload(rng, allow_bad=True):
     return "hex:" + (W.close_payload(rng.choice(CODES)) + bytes.fromhex(rng.choice(BAD_REASONS))).hex()
 
 
+def _bad_close(rng, dt=0):
+    """A close() call whose arguments cannot be sent: it must raise and change nothing."""
+    k = rng.random()
+    if k < 0.5:
+        return {"op": "t_close", "dt": dt, "code": rng.choice([None, 1000, 1011, 4000]),
+                "reason": rng.choice(["x" * 124, "y" * 200, "\u00e9" * 62])}
+    return {"op": "t_close", "dt": dt, "code": rng.choice([65536, 70000, -1, 100000]),
+            "reason": rng.choice([None, "bye"])}
+
+
 def _filler(rng, mode, n):
     ops = []
     for _ in range(n):
         k = rng.random()
         dt = rng.choice([0, 0, 0, -1, 1, 3, 40])
-        if k < 0.4:
+        if k < 0.07:
+            ops.append(_bad_close(rng, dt))
+        elif k < 0.4:
             ops.append({"op": "p_msg", "dt": dt, "t": rng.choice([1, 2]), "n": rng.choice([0, 5, 126, 300])})
         elif k < 0.75:
             ops.append({"op": "t_write", "dt": dt, "n": rng.choice([0, 5, 126, 300])})
@@ -206,6 +222,14 @@ def gen(rng, tier, index):
             elif raw:
                 ops.append({"op": rng.choice(["p_fin", "p_half", "p_rst"]), "dt": rng.choice(dl)})
             ops += _filler(rng, mode, rng.randint(0, 1))
+    # the "try: close(code, long_reason) except ValueError: close(code)" pattern
+    if rng.random() < 0.2:
+        idx = [i for i, o in enumerate(ops) if o["op"] == "t_close" and not _close_args_invalid(
+            o.get("code"), o.get("reason"))]
+        if idx:
+            i = rng.choice(idx)
+            ops.insert(i, _bad_close(rng, ops[i].get("dt", 0)))
+            ops[i + 1] = dict(ops[i + 1], dt=rng.choice([0, 0, 1]))
     # application writes after the close sequence
     for _ in range(rng.choice([0, 1, 1, 2])):
         ops.append({"op": rng.choice(["t_write", "t_write", "p_write"]),
@@ -258,9 +282,9 @@ def validate(scn):
                 return False
             if o["op"] == "t_close":
                 c, r = o.get("code"), o.get("reason")
-                if c is not None and not (isinstance(c, int) and 0 <= c <= 65535):
+                if c is not None and not (isinstance(c, int) and -10 <= c <= 200000):
                     return False
-                if r is not None and (not isinstance(r, str) or len(r.encode("utf-8")) > 123):
+                if r is not None and (not isinstance(r, str) or len(r.encode("utf-8")) > 400):
                     return False
             if o["op"] in ("p_fin", "p_half", "p_rst") and k["mode"] == "real":
                 return False
@@ -284,7 +308,8 @@ class Side:
         self.rec = rec
         self.is_client = is_client
         self.fd = None
-        self.local_closes = []  # (time, expected close payload)
+        self.local_closes = []  # (time, expected close payload) - calls that were accepted
+        self.rejected_closes = []  # (time, args_were_invalid, exception type) - calls that raised
         self.writes = []  # (time, after_local_close, after_notify, outcome)
         self.close_times = []
         self.ping = None
@@ -296,7 +321,16 @@ def _payload_for(code, reason):
         code = 1000
     if code is None:
         return b""
+    if not 0 <= code <= 65535:
+        return None
     return W.close_payload(code, (reason or "").encode("utf-8"))
+
+
+def _close_args_invalid(code, reason):
+    """A close frame for these arguments cannot be built (RFC 6455: 2-byte code, control
+    payload <= 125 bytes): close() raises and - on the unchanged tree - has no other effect."""
+    pl = _payload_for(code, reason)
+    return pl is None or len(pl) > 125
 
 
 def run(scn, full_log=False):
@@ -398,12 +432,25 @@ def run(scn, full_log=False):
             fut.add_done_callback(done)
 
         def do_close(side, code, reason):
-            side.local_closes.append((loop.time(), _payload_for(code, reason)))
-            env.log.ev("local_close", side.name, code)
+            invalid = _close_args_invalid(code, reason)
+            env.log.ev("local_close", side.name, code, invalid)
             if side.rec.in_flight:
                 probe("async_on_message_running_at_close")
             if side.api is not None:
-                side.api.close(code, reason)
+                try:
+                    side.api.close(code, reason)
+                except (ValueError, struct.error, TypeError, OverflowError) as e:
+                    # a rejected close: the connection must stay exactly as it was, so the
+                    # call is not recorded as a local close - everything after it is judged
+                    # as if it had not happened
+                    side.rejected_closes.append((loop.time(), invalid, type(e).__name__))
+                    env.log.ev("local_close_rejected", side.name, type(e).__name__)
+                    probe("local_close_rejected")
+                    return
+            if invalid:
+                probe("invalid_close_args_on_closing_connection")
+            pl = _payload_for(code, reason)
+            side.local_closes.append((loop.time(), b"\xff<unsendable>" if pl is None else pl))
 
         def note_peer_close(payload, when, how="op"):
             state["peer_closes_sent"] += 1
@@ -756,6 +803,46 @@ def run(scn, full_log=False):
                                            f"{want!r}")
                     else:
                         probe("peer_code_reported")
+            # R8 a close() call that raised although its arguments were fine
+            for (tr, invalid, exc) in side.rejected_closes:
+                if not invalid:
+                    bad("close.raised", f"close() with valid arguments raised {exc} at {tr}", exc)
+            # R9 the peer's close frame was processed while the connection was up (the application
+            # was told its code), yet this side never sent a close frame of its own
+            if (T is None and pc_valid and pc_code is not None and t_a is not None and t_c is not None
+                    and t_a <= t_c and (peer_end is None or peer_end > t_c)
+                    and side.rec.closed >= 1 and side.rec.close_code == pc_code
+                    and not any(loop.faults.get(k) for k in NO_WIRE_GUARANTEE)):
+                bad("close.echo_missing", f"peer's close frame (code {pc_code}, arrived {t_a}) was processed "
+                                          f"and reported to the application, but this side never sent a "
+                                          f"close frame before closing the socket at {t_c}",
+                    "after_rejected_close" if side.rejected_closes else "")
+            # R10 an accepted local close() on a connection that was fully open must start the
+            # handshake: a close frame has to reach the wire
+            if T is None and side.local_closes:
+                t_l = side.local_closes[0][0]
+                open_then = ((t_a is None or t_a > t_l) and (peer_end is None or peer_end > t_l)
+                             and (t_c is None or t_c > t_l) and not side.ping
+                             and not any(loop.faults.get(k) for k in NO_WIRE_GUARANTEE))
+                if open_then:
+                    bad("close.frame_missing", f"close() accepted at {t_l} on an open connection, but no "
+                                               f"close frame was ever written (socket closed at {t_c})",
+                        "after_rejected_close" if any(tr <= t_l for tr, _, _ in side.rejected_closes)
+                        else "")
+            # R11 a write on a connection nobody has started to close must not fail as "closed"
+            for (tw, after_local, after_notify, outcome) in side.writes:
+                if after_local or after_notify or outcome != "WebSocketClosedError" or side.ping:
+                    continue
+                untouched = ((t_a is None or t_a > tw) and (peer_end is None or peer_end > tw)
+                             and (t_c is None or t_c > tw))
+                if T is not None:
+                    first_local = min((t for t, _ in side.local_closes), default=None)
+                    untouched = untouched and first_local is not None and first_local > tw
+                if untouched:
+                    bad("write_rejected_while_open", f"write_message at {tw} raised WebSocketClosedError "
+                                                     f"although neither side had started to close",
+                        "after_rejected_close" if any(tr <= tw for tr, _, _ in side.rejected_closes)
+                        else "")
             # R7 writes after close
             for (tw, after_local, after_notify, outcome) in side.writes:
                 if after_local or after_notify:
